@@ -1,6 +1,7 @@
 package main
 
 import (
+	"go/ast"
 	"runtime/debug"
 	"os"
 	"fmt"
@@ -33,6 +34,7 @@ type Verifier struct {
 	labelSiteTypes map[string]types.Type
 	effMemo        map[*ssa.Function]map[string]bool
 	syncMapSwept   bool
+	expSet         map[string]bool
 }
 
 func NewVerifier(p *Program, c *Contracts) *Verifier {
@@ -179,6 +181,42 @@ func (v *Verifier) entryBases(tc *TypeContract, m *Monitor) []*Term {
 		}
 	}
 	return out
+}
+
+// fieldSetByExportedMethod: some exported method of the type (or of a pointer to it) stores into the field.
+func (v *Verifier) fieldSetByExportedMethod(ns *types.Named, field string) bool {
+	key := typeName(ns) + "." + field
+	if v.expSet == nil {
+		v.expSet = map[string]bool{}
+		for fn := range v.P.All {
+			if fn.Signature == nil || fn.Signature.Recv() == nil || !ast.IsExported(fn.Name()) {
+				continue
+			}
+			rn := namedStruct(pointee(fn.Signature.Recv().Type()))
+			if rn == nil {
+				if n, ok := fn.Signature.Recv().Type().(*types.Named); ok {
+					rn = n
+				}
+			}
+			if rn == nil {
+				continue
+			}
+			for _, b := range fn.Blocks {
+				for _, in := range b.Instrs {
+					st, ok := in.(*ssa.Store)
+					if !ok {
+						continue
+					}
+					if fa, ok := st.Addr.(*ssa.FieldAddr); ok {
+						if fs := namedStruct(pointee(fa.X.Type())); fs != nil && typeName(fs) == typeName(rn) {
+							v.expSet[typeName(fs)+"."+fs.Underlying().(*types.Struct).Field(fa.Field).Name()] = true
+						}
+					}
+				}
+			}
+		}
+	}
+	return v.expSet[key]
 }
 
 // underContract: the function (or the function a closure is nested in) has a contract.
